@@ -15,6 +15,8 @@ ROUTES = {
     # name: (emission, argv-builder)
     "z3-int": ("int", lambda f, to: [Z3, "-T:%d" % to, f]),
     "cvc5-int": ("int", lambda f, to: [CVC5, "--tlimit=%d" % (to * 1000), f]),
+    "z3-intq": ("intq", lambda f, to: [Z3, "-T:%d" % to, f]),
+    "cvc5-intq": ("intq", lambda f, to: [CVC5, "--tlimit=%d" % (to * 1000), f]),
     "cvc5-bvint": ("bv", lambda f, to: [CVC5, "--solve-bv-as-int=sum", "--tlimit=%d" % (to * 1000), f]),
     "z3-bv": ("bv", lambda f, to: [Z3, "-T:%d" % to, f]),
     "cvc5-bv": ("bv", lambda f, to: [CVC5, "--fp-exp", "--tlimit=%d" % (to * 1000), f]),
@@ -118,8 +120,7 @@ def solve(assertions, values, routes, timeout, workdir, texts=None, want_all=Fal
         emission = ROUTES[route][0]
         if emission not in texts:
             try:
-                texts[emission] = smt.emit_int(assertions, values) if emission == "int" else \
-                    smt.emit_bv(assertions, values)
+                texts[emission] = smt.emit(emission, assertions, values)
             except smt.EmitUnsupported as e:
                 texts[emission] = None
                 res.attempts.append((route, "unsupported:" + str(e), 0.0))
